@@ -3,6 +3,10 @@
 (*   timedPlannerTerminationCondition(d)            ("timed", iv = 0)            *)
 (*   timedPlannerTerminationCondition(d, interval)  ("timed", iv > 0)            *)
 (*   PlannerTerminationCondition(fn, period)        ("periodic")                 *)
+(* "Race" executions are periodic ones whose predicate blocks until a second    *)
+(* thread's terminate() has returned (the Terminate event is logged after that  *)
+(* return) and then returns false; the evals that follow, direct and through    *)
+(* or(never, c) / and(always, c) (field `via`), fall under terminate-not-sticky. *)
 (* All times are integer milliseconds of ompl::time::now(); a timestamp taken   *)
 (* BEFORE a call is rounded down, one taken AFTER a call is rounded up.         *)
 (*                                                                              *)
